@@ -24,14 +24,28 @@ Prog(p) ==
     [] p = 2 -> <<0, 32, 147, 229,   4, 48, 131, 226,  0, 32, 147, 229>>     \* LDR r2,[r3] ; ADD r3,r3,#4 ; LDR r2,[r3]   (r3 unaligned)
     [] p = 3 -> <<0, 0, 0, 239,      0, 0, 160, 225,  0, 0, 160, 225>>       \* SVC #0 ; (vector code: NOPs)
     [] p = 4 -> <<178, 32, 211, 225,  1, 16, 129, 226,  4, 240, 31, 229>>    \* LDRH r2,[r3,#2] ; ADD r1,r1,#1 ; LDR pc,[pc,#-4]
-MemImage(p) == [j \in 1..256 |-> IF j - 1 >= 16 /\ j - 1 < 28 THEN Prog(p)[j - 16] ELSE (j * 13) % 256]
+    \* program 5 runs with SCTLR.M = 1: the MPU (region 0: 4 GiB, read-only) refuses the store under PMSA, the MMU
+    \* (section descriptor at address 0: flat, full access, domain 0 client) lets it complete under VMSA
+    [] p = 5 -> <<3, 32, 131, 229,   0, 0, 160, 225,  0, 0, 160, 225>>       \* STR r2,[r3,#3] ; NOP ; NOP
+NPROG == 5
+MemImage(p) == [j \in 1..256 |-> IF j - 1 >= 16 /\ j - 1 < 28 THEN Prog(p)[j - 16]
+                                 ELSE IF p = 5 /\ j <= 4 THEN <<2, 12, 0, 0>>[j] ELSE (j * 13) % 256]
+MPUNames == {DRSRn[k] : k \in 1..Len(DRSRn)} \cup {DRBARn[k] : k \in 1..Len(DRBARn)} \cup {DRACRn[k] : k \in 1..Len(DRACRn)}
+SysFor(c, p) ==
+  LET base == [SCTLR |-> MkWordBits((IF Cfg(c).arch >= 7 THEN << <<22, 1>> >> ELSE <<>>) \o
+                                    (IF p = 5 THEN << <<0, 1>>, <<28, 1>> >> ELSE <<>>)),
+               SCR |-> Zero, HCR |-> Zero, HSCTLR |-> Zero,
+               VBAR |-> <<0, 160>>, MVBAR |-> Zero, HVBAR |-> Zero, NSACR |-> Zero, DFSR |-> Zero, DFAR |-> Zero,
+               MPUIR |-> IF p = 5 THEN <<0, 256>> ELSE Zero,
+               TTBCR |-> Zero, FCSEIDR |-> Zero, DACR |-> IF p = 5 THEN <<0, 1>> ELSE Zero,
+               PRRR |-> IF p = 5 THEN <<0, 43690>> ELSE Zero, NMRR |-> Zero, TTBR0 |-> Zero, TTBR1 |-> Zero]
+      mpu  == [n \in MPUNames |-> IF p = 5 /\ n = "DRSR0" THEN <<0, 63>> ELSE IF p = 5 /\ n = "DRACR0" THEN <<0, 1544>> ELSE Zero]
+  IN base @@ mpu
 InitState(c, p) ==
   [R |-> [r \in RNames |-> IF r = "PC" THEN <<0, 16>> ELSE IF r = "R1usr" THEN <<0, 65>> ELSE IF r = "R3usr" THEN <<0, 129>> ELSE <<0, 7>>],
    cpsr |-> <<24576, 467>>,                                              \* ARM state, Supervisor, A I F set, flags 0110
    spsr |-> [m \in SpsrNames |-> Zero], elr |-> Zero,
-   sys |-> [SCTLR |-> MkWordBits(IF Cfg(c).arch >= 7 THEN << <<22, 1>> >> ELSE <<>>), SCR |-> Zero, HCR |-> Zero, HSCTLR |-> Zero,
-            VBAR |-> <<0, 160>>, MVBAR |-> Zero, HVBAR |-> Zero, NSACR |-> Zero, DFSR |-> Zero, DFAR |-> Zero, MPUIR |-> Zero,
-            TTBCR |-> Zero, FCSEIDR |-> Zero, DACR |-> Zero, PRRR |-> Zero, TTBR0 |-> Zero, TTBR1 |-> Zero],
+   sys |-> SysFor(c, p),
    mem |-> [devs |-> <<[b |-> Zero, n |-> 256]>>, base |-> <<MemImage(p)>>, w |-> <<>>],
    ev |-> [evreg |-> 0, wfe |-> 0, wfi |-> 0],
    cfg |-> Cfg(c) @@ [irqvec |-> Zero, fiqvec |-> Zero]]
@@ -42,7 +56,7 @@ Solo(c, p, k) == IF k = 0 THEN InitState(c, p) ELSE StepS(Solo(c, p, k - 1))
 
 Init == inst = [i \in 1..2 |-> [created |-> FALSE, c |-> 0, p |-> 0, k |-> 0, s |-> <<>>]] /\ hist = <<>>
 Create(i) == /\ ~inst[i].created
-             /\ \E c \in 1..4, p \in 1..4 :
+             /\ \E c \in 1..4, p \in 1..NPROG :
                   /\ (i = 2 => p = inst[1].p \/ ~inst[1].created)        \* keep the program pair space small: same program
                   /\ inst' = [inst EXCEPT ![i] = [created |-> TRUE, c |-> c, p |-> p, k |-> 0, s |-> InitState(c, p)]]
                   /\ hist' = IF GEN THEN Append(hist, [a |-> "create", i |-> i, c |-> c, p |-> p]) ELSE hist
@@ -54,8 +68,11 @@ Spec == Init /\ [][Next]_vars
 
 Isolation == \A i \in 1..2 : inst[i].created => inst[i].s = Solo(inst[i].c, inst[i].p, inst[i].k)
 \* the programs really are configuration sensitive (otherwise the check would be vacuous)
-Sensitive == \A p \in 1..4 : \E c \in 1..4, d \in 1..4 :
+Sensitive == \A p \in 1..NPROG : \E c \in 1..4, d \in 1..4 :
                [Solo(c, p, STEPS) EXCEPT !.cfg = 0, !.sys = 0] # [Solo(d, p, STEPS) EXCEPT !.cfg = 0, !.sys = 0]
+\* diagnostic: outcome and memory log of the solo run of program p under configuration c
+SoloOut(c, p) == [out |-> StepF(InitState(c, p), [n |-> "Step"]).out, path |-> StepF(InitState(c, p), [n |-> "Step"]).path]
+SensitiveInv == TLCGet("level") >= 0 /\ Sensitive /\ SoloOut(2, 5).out = "dabort" /\ SoloOut(3, 5).out = "completed" /\ SoloOut(3, 5).path = "exact:STR_i_A1"
 AllDone == \A i \in 1..2 : inst[i].created /\ inst[i].k = STEPS
 Emit == (GEN /\ AllDone) => PrintT(ToJson(hist))
 =============================================================================
